@@ -334,6 +334,23 @@ def run_case(case):
             out.count("library_merge_raised_(C03)")
             return out
         detail = {"entry": entry, "placeholder": case["placeholder"], "args": case["args"]}
+        if lib != "deleted":
+            try:
+                import nbformat
+                nbformat.writes(to_nb(lib))
+            except Exception:
+                # the library's own result cannot be serialised by nbformat (the recorded finding D6b: a merged cell whose id is a
+                # dict): writing it is a step that fails, so the command must not report success and must leave the output alone
+                r = run_child(case, files, {})
+                out.count("child_runs")
+                out.count("runs_whose_library_result_cannot_be_written_(D6b)")
+                if r["status"] == 0:
+                    out.fail("fault_never_reports_success", "exit_status_zero_although_result_unwritable", detail=detail)
+                if entry != "nbmerge_stdout" and r["before"] != r["after"]:
+                    out.fail("failure_before_write_leaves_output_untouched", "output_changed", "unwritable library result", detail=detail)
+                out.nontrivial = True
+                out.ntkey = {k: case[k] for k in ("base", "local", "remote", "placeholder", "entry", "args")}
+                return out
         # ---- clean run
         r = run_child(case, files, {})
         out.count("child_runs")
